@@ -97,6 +97,9 @@ ReqsShare == { MkReq(p, sk, bk, "v4", "S", FALSE) :
 ReqsShareSmall == { MkReq(p, sk, bk, "v4", "S", FALSE) :
                  p \in {{"tcp80"}, {"tcp443"}},
                  sk \in {"", "k1"}, bk \in {"", "b1"} }
+(* one sharing key, two backend keys, disjoint ports: what decides whether an address of a       *)
+(* requested pool can be shared, and whether the scan goes on to the next free address           *)
+ReqsKeyBackend == { MkReq(p, "k1", bk, "v4", "S", FALSE) : p \in {{"tcp80"}, {"tcp443"}}, bk \in {"", "b1"} }
 ReqsFam == { MkReq({"tcp80"}, "", "", "v4", "S", FALSE),
              MkReq({"tcp80"}, "", "", "v6", "S", FALSE),
              MkReq({"tcp80"}, "", "", "dual", "R", FALSE),
